@@ -6,6 +6,7 @@ import (
 	"context"
 	"errors"
 	"fmt"
+	"hash/fnv"
 	"io"
 	"net"
 	"os"
@@ -21,6 +22,8 @@ var (
 	errInjectedIO    = errors.New("injected i/o error")
 	errInjectedWrite = errors.New("injected write error")
 	errInjectedFlush = errors.New("injected flush error")
+	// an i/o failure as the net package reports it when the connection was closed under the reader
+	errInjectedClosed = fmt.Errorf("%w: %w", errInjectedIO, net.ErrClosed)
 )
 
 type readEv struct {
@@ -43,6 +46,7 @@ type scriptedConn struct {
 	stalled    int
 	serial     bool
 	closed     bool
+	closedErr  bool // i/o errors of the script are reported as wrapping net.ErrClosed
 }
 
 func (c *scriptedConn) Write(p []byte) (int, error) {
@@ -113,6 +117,9 @@ func (c *scriptedConn) Read(p []byte) (int, error) {
 		n := len(ev.data)
 		if n > len(p) {
 			n = len(p)
+		}
+		if c.closedErr {
+			return serve(ev.data[:n], errInjectedClosed, "io")
 		}
 		return serve(ev.data[:n], errInjectedIO, "io")
 	case "c":
@@ -216,6 +223,11 @@ func clientErrStr(err error) string {
 		return "nil"
 	}
 	if errors.Is(err, context.Canceled) || errors.Is(err, context.DeadlineExceeded) {
+		var ce *modbus.ClientError
+		if errors.As(err, &ce) {
+			// the context's error dressed up as the library's retryable error
+			return "err client:ctx-wrapped"
+		}
 		return "err ctx"
 	}
 	if err == error(&modbus.ErrPacketTooLong) {
@@ -231,6 +243,12 @@ func clientErrStr(err error) string {
 	if errors.As(err, &ce) {
 		var et *packet.ErrorResponseTCP
 		var er *packet.ErrorResponseRTU
+		// exceptions travel as pointers; a caller probing with a value target must not be told "device exception" either
+		var etv packet.ErrorResponseTCP
+		var erv packet.ErrorResponseRTU
+		if (errors.As(err, &etv) && !errors.As(err, &et)) || (errors.As(err, &erv) && !errors.As(err, &er)) {
+			return "err client:AS-VALUE-TARGET-MATCHES"
+		}
 		switch {
 		case errors.As(err, &et):
 			return "err client:" + errStr(et)
@@ -290,6 +308,39 @@ func (c *scriptedCtx) expire() {
 	}
 }
 
+func variantOf(s string) int {
+	h := fnv.New32a()
+	_, _ = h.Write([]byte(s))
+	return int(h.Sum32() % 1000)
+}
+
+// newNetClient builds a network client for the framing through one of the public constructors
+func newNetClient(kind string, conf modbus.ClientConfig, variant int) *modbus.Client {
+	if kind == "t" {
+		switch variant % 8 {
+		case 1:
+			return modbus.NewClient(conf)
+		case 2:
+			conf.ParseResponseFunc = packet.ParseTCPResponse
+			return modbus.NewClient(conf)
+		case 3:
+			conf.AsProtocolErrorFunc = packet.AsTCPErrorPacket
+			return modbus.NewClient(conf)
+		case 4:
+			conf.AsProtocolErrorFunc = packet.AsTCPErrorPacket
+			conf.ParseResponseFunc = packet.ParseTCPResponse
+			return modbus.NewClient(conf)
+		}
+		return modbus.NewTCPClientWithConfig(conf)
+	}
+	if variant%4 == 1 {
+		conf.AsProtocolErrorFunc = packet.AsRTUErrorPacketWithCRC
+		conf.ParseResponseFunc = packet.ParseRTUResponseWithCRC
+		return modbus.NewClient(conf)
+	}
+	return modbus.NewRTUClientWithConfig(conf)
+}
+
 // runDo performs one call; returns outcome, hook log and the reads the transport served.
 // The client's total read timeout is real time. A call that ends in that timeout although the transport still had
 // scripted events to deliver was not given the CPU to read them in time (the scripted reads themselves never wait):
@@ -302,6 +353,29 @@ func runDo(kind string, hooks bool, flusher string, reqSpec string, script strin
 		}
 		o, l, c, early = runDoOnce(kind, hooks, flusher, reqSpec, script, scale)
 	}
+	if kind == "s" && o == "err client:timeout" && variantOf("zero"+reqSpec+script)%4 == 0 {
+		// a read timeout of zero (or less) is a legal option value: the stalled call still ends, and at once
+		if po, _, _, _ := runDoOnce(kind, hooks, flusher, reqSpec, script, -1); strings.HasPrefix(po, "HANG") {
+			return po, l, c
+		}
+	}
+	if kind == "s" && strings.HasPrefix(o, "ok ") {
+		// the same exchange with a read timeout shorter than the pause the serial client makes before it starts reading:
+		// the whole reply is waiting on the port, so the call must not time out. A timeout reported without a single
+		// Read having been made, three times in a row, is not starvation.
+		n := 0
+		po := ""
+		for ; n < 3; n++ {
+			var pc string
+			po, _, pc, _ = runDoOnce(kind, hooks, flusher, reqSpec, script, 0)
+			if !strings.Contains(po, "client:timeout") || strings.Contains(pc, ",r:") {
+				break
+			}
+		}
+		if n == 3 {
+			return po, l, c
+		}
+	}
 	return o, l, c
 }
 
@@ -309,6 +383,12 @@ func runDoOnce(kind string, hooks bool, flusher string, reqSpec string, script s
 	evs, writeFails, preCancel := parseScript(script)
 	ctx, cancel := context.WithCancel(context.Background())
 	defer cancel()
+	if variantOf("ctx"+reqSpec+script)%2 == 1 {
+		// a context cancelled WITH A CAUSE: the call still reports the context's error (ctx.Err()), not the cause
+		cctx, cc := context.WithCancelCause(context.Background())
+		ctx, cancel = cctx, func() { cc(errors.New("operator pressed stop")) }
+		defer cancel()
+	}
 	if strings.Contains(";"+script+";", ";cd;") || strings.Contains(";"+script+";", ";pcd;") {
 		// the context ends by deadline expiry instead of an explicit cancel
 		sc := &scriptedCtx{Context: context.Background(), done: make(chan struct{})}
@@ -317,7 +397,8 @@ func runDoOnce(kind string, hooks bool, flusher string, reqSpec string, script s
 	if preCancel {
 		cancel()
 	}
-	conn := &scriptedConn{script: evs, writeFails: writeFails, cancel: cancel, serial: kind == "s"}
+	conn := &scriptedConn{script: evs, writeFails: writeFails, cancel: cancel, serial: kind == "s",
+		closedErr: variantOf("x"+reqSpec+script)%2 == 1}
 	rec := &hookRec{}
 	failedConnect := strings.HasPrefix(reqSpec, "ncf:")
 	notConnected := strings.HasPrefix(reqSpec, "nc:") || failedConnect
@@ -350,15 +431,111 @@ func runDoOnce(kind string, hooks bool, flusher string, reqSpec string, script s
 	if stalls {
 		readTimeout = time.Duration(scale) * 120 * time.Millisecond
 	}
+	// some of the complete exchanges are made with a short timeout and repeated on the same client after it sat idle
+	// for longer than that timeout
+	idleProbe := !stalls && scale > 0 && variantOf("idle"+reqSpec+script)%6 == 2
+	if idleProbe {
+		readTimeout = time.Duration(scale) * 150 * time.Millisecond
+	}
+	if scale == 0 {
+		readTimeout = 20 * time.Millisecond
+	}
+	if scale < 0 {
+		readTimeout = 0
+	}
 	var resp packet.Response
 	var err error
 	closeHangs := false
+	// what the transport and the hooks saw during THE call (a follow-up call is made afterwards on the same client)
+	var snap struct {
+		taken   bool
+		log     []string
+		served  []string
+		written []byte
+		stalled int
+		unread  bool
+	}
+	takeSnap := func() {
+		if snap.taken {
+			return
+		}
+		snap.taken = true
+		conn.mu.Lock()
+		snap.stalled = conn.stalled
+		snap.served = append([]string{}, conn.served...)
+		snap.written = append([]byte{}, conn.written...)
+		snap.unread = len(conn.script) > 0 || len(conn.pending) > 0
+		conn.mu.Unlock()
+		rec.mu.Lock()
+		snap.log = append([]string{}, rec.log...)
+		rec.mu.Unlock()
+	}
+	// a response handed to the caller stays what it is: the next call on the same client (its reply is the bitwise
+	// complement of this one, followed by an i/o error) must not rewrite it
+	aliased := false
+	secondCall := ""
+	followUp := func(again func() (packet.Response, error)) {
+		takeSnap()
+		if err != nil || isNilValue(resp) || scale <= 0 {
+			return
+		}
+		before := respStr(resp)
+		if idleProbe {
+			// the same exchange once more, after an idle period: the same answer (a timeout that is reported although
+			// reads were made is starvation and says nothing)
+			time.Sleep(readTimeout + 50*time.Millisecond)
+			conn.mu.Lock()
+			conn.script = append([]readEv{}, evs...)
+			conn.pending = nil
+			servedBefore := len(conn.served)
+			conn.mu.Unlock()
+			var r2 packet.Response
+			var e2 error
+			func() {
+				defer func() {
+					if recover() != nil {
+						e2 = errors.New("PANIC")
+					}
+				}()
+				r2, e2 = again()
+			}()
+			conn.mu.Lock()
+			reads := len(conn.served) - servedBefore
+			conn.mu.Unlock()
+			switch {
+			case e2 == nil && !isNilValue(r2) && respStr(r2) == before:
+			case e2 != nil && strings.Contains(clientErrStr(e2), "client:timeout") && reads > 0:
+			case e2 != nil:
+				secondCall = "SECOND-CALL-AFTER-IDLE-FAILED:" + strings.ReplaceAll(clientErrStr(e2), " ", "_")
+			default:
+				secondCall = "SECOND-CALL-AFTER-IDLE-DIFFERS"
+			}
+		}
+		var inv []byte
+		for _, ev := range evs {
+			for _, b := range ev.data {
+				inv = append(inv, ^b)
+			}
+		}
+		conn.mu.Lock()
+		conn.script = []readEv{{kind: "d", data: inv}, {kind: "x"}}
+		conn.pending = nil
+		conn.mu.Unlock()
+		func() {
+			defer func() { _ = recover() }()
+			_, _ = again()
+		}()
+		if respStr(resp) != before {
+			aliased = true
+		}
+	}
 	done := make(chan struct{})
 	go func() {
 		defer func() {
 			if r := recover(); r != nil {
 				err = fmt.Errorf("PANIC")
 			}
+			takeSnap()
 			close(done)
 		}()
 		if kind == "s" {
@@ -374,6 +551,9 @@ func runDoOnce(kind string, hooks bool, flusher string, reqSpec string, script s
 			opts := []modbus.SerialClientOptionFunc{modbus.WithSerialReadTimeout(readTimeout)}
 			if hooks {
 				opts = append(opts, modbus.WithSerialHooks(rec))
+			} else if variantOf(reqSpec+script)%3 == 1 {
+				// "no hooks" said explicitly (an optional logger that is nil)
+				opts = append(opts, modbus.WithSerialHooks(nil))
 			}
 			var c *modbus.SerialClient
 			if notConnected {
@@ -382,6 +562,7 @@ func runDoOnce(kind string, hooks bool, flusher string, reqSpec string, script s
 				c = modbus.NewSerialClient(port, opts...)
 			}
 			resp, err = c.Do(ctx, req)
+			followUp(func() (packet.Response, error) { return c.Do(context.Background(), req) })
 			closeHangs = closeBlocks(c.Close)
 			return
 		}
@@ -392,12 +573,9 @@ func runDoOnce(kind string, hooks bool, flusher string, reqSpec string, script s
 		if hooks {
 			conf.Hooks = rec
 		}
-		var c *modbus.Client
-		if kind == "t" {
-			c = modbus.NewTCPClientWithConfig(conf)
-		} else {
-			c = modbus.NewRTUClientWithConfig(conf)
-		}
+		// every way of constructing a client of this framing: the WithConfig constructors, and NewClient with none, one
+		// or both protocol functions given (TCP is the documented default of NewClient)
+		c := newNetClient(kind, conf, variantOf(kind+reqSpec+script))
 		if failedConnect {
 			// a Connect that fails although the dial function hands back a connection value: the client stays unconnected
 			failing := conf
@@ -418,6 +596,7 @@ func runDoOnce(kind string, hooks bool, flusher string, reqSpec string, script s
 			}
 		}
 		resp, err = c.Do(ctx, req)
+		followUp(func() (packet.Response, error) { return c.Do(context.Background(), req) })
 		closeHangs = closeBlocks(c.Close)
 	}()
 	select {
@@ -440,17 +619,22 @@ func runDoOnce(kind string, hooks bool, flusher string, reqSpec string, script s
 			outcome = outcome[:i]
 		}
 	}
+	if aliased {
+		outcome = "ALIASED-rewritten-by-next-call " + outcome
+	}
+	if secondCall != "" {
+		outcome = secondCall + " " + outcome
+	}
 	if closeHangs {
 		// the call returned but left the client locked: the next use of the same client would never terminate
 		outcome = "HANG-after-return " + outcome
 	}
 	// collapse the reads after the script ended into one "stall" entry
-	conn.mu.Lock()
-	stalled := conn.stalled
-	served := append([]string{}, conn.served...)
-	written := conn.written
-	conn.mu.Unlock()
-	log := append([]string{}, rec.log...)
+	takeSnap()
+	stalled := snap.stalled
+	served := snap.served
+	written := snap.written
+	log := snap.log
 	if stalled > 0 {
 		served = append(served, "stall")
 		// the last `stalled` read entries of the hook log are the stall (a trailing bp cannot follow a stall)
@@ -479,10 +663,7 @@ func runDoOnce(kind string, hooks bool, flusher string, reqSpec string, script s
 	if notConnected || reqSpec == "nil" {
 		cs = "-"
 	}
-	conn.mu.Lock()
-	unread := len(conn.script) > 0 || len(conn.pending) > 0
-	conn.mu.Unlock()
-	early := unread && strings.Contains(outcome, "client:timeout")
+	early := snap.unread && strings.Contains(outcome, "client:timeout")
 	return outcome, ls, cs, early
 }
 
@@ -492,7 +673,11 @@ func execDo(ts []string) string {
 	if o1 == "NOREQ" {
 		return "NOREQ"
 	}
-	o2, _, _ := runDo(kind, false, flusher, reqSpec, script)
+	o2 := o1
+	if !strings.HasPrefix(o1, "HANG") {
+		// (a call that never returned is not repeated without hooks: each such run costs the whole watchdog time)
+		o2, _, _ = runDo(kind, false, flusher, reqSpec, script)
+	}
 	if !hooks {
 		l1 = "-"
 	}
